@@ -685,6 +685,45 @@ static void modeCycle(const Case& c)
                 }
             os << " algcols=" << cols << " algworst=" << dec(worst) << " algcol=" << worstCol;
         }
+        // ---- (c) WITH smoothing a two-level cycle is  S^post o (coarse-grid correction) o S^pre,  composed here from the level's
+        //          public smoother and the algebraic correction (the smoothing-step counters and which smoother runs on level 0
+        //          are part of the scheme)
+        if (L == 2 && (k.pre + k.post) > 0 && c.i("do_alg", 1)) {
+            Vector<double> fc = s->levels_[1].rhs().size() ? s->levels_[1].rhs() : Vector<double>(s->levels_[1].grid().numberOfNodes());
+            double worst = 0;
+            int cols     = 0;
+            Vector<double> u(N), f(N), res(N), tmp(N);
+            const bool exSmooth = extrap && !s->full_grid_smoothing_;
+            for (int j = 0; j < 4; j++) {
+                for (int i = 0; i < N; i++) {
+                    u[i] = (j == 3 ? 100.0 : 0.01) * filler(seed + 50 + j, i);
+                    f[i] = (j == 2 ? 0.0 : 0.01) * filler(seed + 60 + j, i);
+                }
+                Vector<double> x = u, rhs = f;
+                for (int q = 0; q < k.pre; q++) {
+                    fill(tmp, seed + 70 + q);
+                    if (exSmooth)
+                        L0.extrapolatedSmoothing(x, rhs, tmp);
+                    else
+                        L0.smoothing(x, rhs, tmp);
+                }
+                Vector<double> expect = algebraicCorrection(*s, extrap, x, rhs, fc);
+                for (int q = 0; q < k.post; q++) {
+                    fill(tmp, seed + 80 + q);
+                    if (exSmooth)
+                        L0.extrapolatedSmoothing(expect, rhs, tmp);
+                    else
+                        L0.smoothing(expect, rhs, tmp);
+                }
+                Vector<double> got = u, rhs2 = f;
+                fill(res, seed + 90 + j);
+                runCycle(*s, type, extrap, 0, got, rhs2, res);
+                double d = maxAbsDiff(got, expect), sc = std::max(maxAbs(expect), 1e-300);
+                cols++;
+                worst = std::max(worst, d / sc);
+            }
+            os << " compcols=" << cols << " compworst=" << dec(worst);
+        }
     }
     catch (const std::exception& ex) {
         std::string w = ex.what();
